@@ -106,6 +106,27 @@ def gen_unitmap(rng, nops, hist):
     return lines
 
 
+def crash_unitmap(lines, out, err):
+    """The white-box harness died.  Was the operation it died in legal according to the implementation's own
+    earlier reports (then the table broke its contract) or did an earlier *legitimate* difference (e.g. a map that
+    needed memory under the injected malloc failure) make the generated sequence illegal?"""
+    m = set()
+    for i, l in enumerate(lines):
+        w = l.split()
+        if i >= len(out) or out[i] == "":
+            if w[0] in ("unmap", "get") and w[1] not in m:
+                return None
+            return "aborted in `%s` (line %d), a legal operation: %s" % (l, i, err[-600:])
+        o = out[i].split()
+        if w[0] in ("new", "stress"):
+            m = set()
+        elif w[0] in ("map", "mapf") and o[:2] == ["map", "0"]:
+            m.add(w[1])
+        elif w[0] == "unmap":
+            m.discard(w[1])
+    return "aborted after the last operation: " + err[-600:]
+
+
 def oracle_unitmap(lines, out):
     m = {}
     for i, l in enumerate(lines):
@@ -288,6 +309,7 @@ def oracle_userpool(lines, out):
     translation unit<->work unit, every work unit entered and finished once per create/revive."""
     live = {}            # unit name -> (pool, thread)
     runs = {}            # thread -> expected number of executions
+    freed = set()
     for i, l in enumerate(lines):
         if i >= len(out) or out[i] == "":
             return "missing output for line %d `%s`" % (i, l)
@@ -314,7 +336,17 @@ def oracle_userpool(lines, out):
             elif e[0] == "pop" and e[2] != "none":
                 if e[2] not in live or live[e[2]][0] != e[1]:
                     return "line %d `%s`: pool %s handed out %s which is not live there" % (i, l, e[1], e[2])
+        owners = collections.Counter(t for (_, t) in live.values())
+        for t, n in owners.items():
+            if n > 1:
+                return ("line %d `%s`: work unit %s owns %d live units %s: create_unit for the new association without "
+                        "free_unit for the old one" % (i, l, t, n, sorted(u for u, (_, tt) in live.items() if tt == t)))
         w = l.split()
+        if w[0] == "free" and head[1] == "0":
+            left = sorted(u for u, (_, tt) in live.items() if tt == "t" + w[1])
+            if left:
+                return "line %d `%s`: work unit freed but its unit(s) %s were never passed to free_unit" % (i, l, left)
+            freed.add("t" + w[1])
         if w[0] == "create" and head[1] == "0":
             runs[head[2]] = 1
         elif w[0] == "revive" and head[1] == "0":
@@ -334,10 +366,10 @@ def oracle_userpool(lines, out):
                 if head[3] != "t" + w[1] or live.get(head[2], (None, None))[1] != "t" + w[1]:
                     return "line %d `%s`: unit/work-unit translation wrong: %s" % (i, l, o)
         elif w[0] == "fin":
-            if live:
-                return "line %d: units never freed: %s" % (i, sorted(live))
             counts = head[1:]
             for k, c in enumerate(counts):
+                if "t%d" % k not in freed:
+                    continue
                 exp = runs.get("t%d" % k, 0)
                 if c != "%d/%d" % (exp, exp):
                     return "work unit t%d executed %s (entered/finished), expected %d/%d" % (k, c, exp, exp)
@@ -376,9 +408,16 @@ def run_diff(res, what, model, exe, gen, oracle, rounds, nops, rng, hist, sample
                         mapped.discard(w[1])
             return True
 
+        def judge(ls):
+            rc, oc, er = D.run_lines([exe], ls)
+            if rc != 0:
+                if model == "unitmap":
+                    return crash_unitmap(ls, oc, er)
+                return "implementation aborted (assert/sanitizer/signal %s): %s" % (rc, er[-800:])
+            return oracle(ls, oc)
+
         def violates(ls):
-            rc, oc, _ = D.run_lines([exe], ls)
-            return rc != 0 or oracle(ls, oc) is not None
+            return judge(ls) is not None
         keep = 1 if model == "unitmap" else 0
         if violates(lines):
             # the implementation's own output contradicts the property: shrink towards that
@@ -388,7 +427,7 @@ def run_diff(res, what, model, exe, gen, oracle, rounds, nops, rng, hist, sample
                             keep_prefix=keep, budget=300)
         d2 = D.compare(model, exe, small) or d
         rc, out_c, err = D.run_lines([exe], small)
-        why = oracle(small, out_c) if rc == 0 else "implementation aborted (assert/sanitizer/signal %s): %s" % (rc, err[-800:])
+        why = judge(small)
         rep = {"correspondence": what, "model": model, "ops": small, "disagreement": d2, "impl_output": out_c[:200],
                "oracle": why}
         if why:
